@@ -78,9 +78,11 @@ def make_skeleton(n_nodes, edges=None):
     return sio.Skeleton(nodes=names, edges=[(names[a], names[b]) for a, b in edges])
 
 
-def make_labels(frames, n_nodes=None, edges=None, skeleton=None):
+def make_labels(frames, n_nodes=None, edges=None, skeleton=None, stale_hidden=False):
     """Build sio.Labels.  frames: list of dict(image, instances, video=0).  Returns Labels whose
-    labeled_frames are in the order given; frame_idx is the position of the frame inside its video."""
+    labeled_frames are in the order given; frame_idx is the position of the frame inside its video.
+    stale_hidden: a missing (NaN) node keeps stale coordinates in the Instance and is marked not visible - what the SLEAP
+    GUI stores for a hidden node; Instance.numpy() still says NaN, so it is exactly as missing as before."""
     if skeleton is None:
         if n_nodes is None:
             n_nodes = int(np.asarray(frames[0]["instances"][0]).shape[0])
@@ -98,6 +100,13 @@ def make_labels(frames, n_nodes=None, edges=None, skeleton=None):
     for f in frames:
         vid = int(f.get("video", 0))
         insts = [sio.Instance.from_numpy(np.asarray(p, dtype="float64"), skeleton=skeleton) for p in f["instances"]]
+        if stale_hidden:
+            h_, w_ = np.asarray(f["image"]).shape[:2]
+            for inst, p in zip(insts, f["instances"]):
+                for n, row in enumerate(np.asarray(p, dtype="float64")):
+                    if np.isnan(row).any():
+                        inst.points["xy"][n] = (w_ / 2.0 + n, h_ / 2.0 - n)
+                        inst.points["visible"][n] = False
         lfs.append(sio.LabeledFrame(video=videos[vid], frame_idx=counters[vid], instances=insts))
         counters[vid] += 1
     return sio.Labels(videos=[videos[v] for v in sorted(videos)], skeletons=[skeleton], labeled_frames=lfs)
